@@ -145,7 +145,9 @@ class EndpointParameterProcessor:
         If a path variable is not already defined as a parameter, it's added as a required string type.
         This also updates the param_details_map.
         """
-        url_vars = extract_url_variables(op.path)
+        # In the order of their first occurrence in the path: iterating the set directly would make the argument order
+        # of the generated method depend on the interpreter's hash seed
+        url_vars = sorted(extract_url_variables(op.path), key=lambda var: op.path.index("{" + var + "}"))
 
         # Make a copy to modify if necessary
         updated_params = list(current_params)
